@@ -75,5 +75,23 @@ v('c02-probe-len', 'C02', 'fire', B, "    if (lltd_port_send_frame(iface_ctx, pr
 v('c02-uuid-uninit', 'C02', 'fire', B, "    offset += setQosCharacteristicsTLV(buffer, offset);\n    offset += setIconImageTLV(buffer, offset);", "    offset += setQosCharacteristicsTLV(buffer, offset);\n    { uint8_t junk[4]; lltd_port_memcpy(buffer + 60, junk, 4); }\n    offset += setIconImageTLV(buffer, offset);", 'R02.5', 'copies uninitialised stack bytes into the Hello')
 v('c02-benign-reorder-tlvs', 'C02', 'silent', B, "    offset += setIPv4TLV(buffer, offset, iface_ctx);\n    offset += setIPv6TLV(buffer, offset, iface_ctx);", "    offset += setIPv6TLV(buffer, offset, iface_ctx);\n    offset += setIPv4TLV(buffer, offset, iface_ctx);")
 
+# ---- C06
+v('c06-ack-first', 'C06', 'fire', B, "        bool ack = (i == numDescs - 1);", "        bool ack = (i == 0);", 'R06.4')
+v('c06-sleep-after-send', 'C06', 'fire', B, "    lltd_port_sleep_ms((uint32_t)pause_ms);\n    if (lltd_port_send_frame(iface_ctx, probe, packageSize) < 0) {", "    if (lltd_port_send_frame(iface_ctx, probe, packageSize) < 0) {", 'R06.2')
+v('c06-swap-src-dst', 'C06', 'fire', B, "            (void)sendProbeMsg(emitee->sourceAddr,\n                               emitee->destAddr,", "            (void)sendProbeMsg(emitee->destAddr,\n                               emitee->sourceAddr,", 'R06.3')
+v('c06-unclamped', 'C06', 'fire', B, "    if ((size_t)numDescs > maxDescs) {\n        numDescs = (int)maxDescs;\n    }", "", 'R06.1')
+v('c06-stride-12', 'C06', 'fire', B, "        offsetEmitee += (uint16_t)sizeof(emitee_descs);", "        offsetEmitee += (uint16_t)(sizeof(emitee_descs) - 2);", 'R06')
+v('c06-kind-swapped', 'C06', 'fire', B, "    uint8_t code = (type == 0x01) ? opcode_probe : opcode_train;", "    uint8_t code = (type == 0x01) ? opcode_train : opcode_probe;", 'R06.3')
+v('c06-ack-seq-zero', 'C06', 'fire', B, "                        &st->mapper_real,\n                        st->mapper_seq, opcode_ack, tos_discovery);", "                        &st->mapper_real,\n                        0, opcode_ack, tos_discovery);", 'R06.4')
+v('c06-pause-from-type', 'C06', 'fire', B, "                               emitee->pause,\n                               emitee->type,", "                               emitee->type,\n                               emitee->type,", 'R06.2')
+v('c06-ack-every-iteration', 'C06', 'fire', B, "        bool ack = (i == numDescs - 1);", "        bool ack = true;", 'R06.4')
+v('c06-benign-ptr-walk', 'C06', 'silent', B, "        emitee_descs *emitee = (emitee_descs *)((uint8_t *)emitHeader + sizeof(*emitHeader) + offsetEmitee);", "        uint8_t *cursor = (uint8_t *)inFrame + sizeof(*lltdHeader) + sizeof(*emitHeader);\n        emitee_descs *emitee = (emitee_descs *)(cursor + offsetEmitee);")
+
+# ---- C10
+v('c10-realdst-mapper', 'C10', 'fire', B, "                    (const ethernet_address_t *)&dst,                               /* realDest: emitee dst */", "                    &st->mapper_real,                               /* realDest */", 'R10.2')
+v('c10-observer-eth-dst', 'C10', 'fire', B, "    bool forUs = compareEthernetAddress(&header->realDestination, &our_mac);", "    bool forUs = compareEthernetAddress(&header->realSource, &our_mac);", 'R10')
+v('c10-emitter-realsrc', 'C10', 'fire', B, "                    (const ethernet_address_t *)&our_mac,                            /* realSource: our MAC */\n                    (const ethernet_address_t *)&dst,", "                    (const ethernet_address_t *)&src,                            /* realSource */\n                    (const ethernet_address_t *)&dst,", 'R10.3')
+v('c10-emitter-quick-tos', 'C10', 'fire', B, "                    0, code, tos_discovery);\n\n    log_lltd_frame(\"TX\",", "                    0, code, tos_quick_discovery);\n\n    log_lltd_frame(\"TX\",", 'R10.3')
+
 json.dump(V, open(os.path.join(HERE, 'variants.json'), 'w'), indent=1)
 print(len(V), 'variants')
